@@ -162,7 +162,7 @@ def regions (Nz Nr : Nat) : List (List (Nat × Nat)) :=
 
 /-- `T_new[region] = f(T_k)` for one region: the right-hand side is evaluated
 completely (numpy builds a temporary) and then written. -/
-def writeRegion (Nr : Nat) (node : (Nat → Nat → α) → Nat → Nat → α)
+@[specialize] def writeRegion (Nr : Nat) (node : (Nat → Nat → α) → Nat → Nat → α)
     (A : Array α) (reg : List (Nat × Nat)) : Array α :=
   let vals := reg.map fun ij => node (rd Nr A) ij.1 ij.2
   (reg.zip vals).foldl (fun A' e => A'.setIfInBounds (e.1.1 * Nr + e.1.2) e.2) A
@@ -170,7 +170,7 @@ def writeRegion (Nr : Nat) (node : (Nat → Nat → α) → Nat → Nat → α)
 /-- One sweep over the grid.  `inplace = true`: the aliased code (each region
 reads the array as left by the regions before it).  `inplace = false`: every node
 is computed from the old field. -/
-def sweep (Nz Nr : Nat) (inplace : Bool) (node : (Nat → Nat → α) → Nat → Nat → α)
+@[specialize] def sweep (Nz Nr : Nat) (inplace : Bool) (node : (Nat → Nat → α) → Nat → Nat → α)
     (T : Array α) : Array α :=
   if inplace then (regions Nz Nr).foldl (writeRegion Nr node) T
   else Array.ofFn (n := Nz * Nr) fun idx => node (rd Nr T) (idx.val / Nr) (idx.val % Nr)
